@@ -4,7 +4,9 @@ package main
 
 import (
 	"fmt"
+	"go/constant"
 	"go/token"
+	"go/types"
 	"strings"
 
 	"golang.org/x/tools/go/ssa"
@@ -1029,4 +1031,314 @@ func ruleNoGlob(r *Report) {
 	} else {
 		r.OK(rule, key, 0, fmt.Sprintf("%d directory listing(s), none through a pattern API", lists))
 	}
+}
+
+// R-sentinel-form: one belief per sentinel. Within a package every test for a module-declared sentinel error uses the
+// same form — errors.Is (sees through wrapping) or == (identity only). Mixed forms are a contradiction (Engler): a value
+// that passes `!errors.Is(err, Done)` as "real error" three lines above and is then compared with `== Done` treats a
+// wrapped Done as neither an error nor the end.
+func ruleSentinelForm(r *Report, pkgs ...string) {
+	const rule = "sentinel-form"
+	r.Rule(rule, 3, "within a package, all tests for one module-declared sentinel error use one form (errors.Is or ==); within a function the same holds for every sentinel")
+	p := r.P
+	want := map[string]bool{}
+	for _, k := range pkgs {
+		want[k] = true
+	}
+	type use struct {
+		form string
+		pos  token.Pos
+		root ssa.Value // the tested error value (cell or SSA value)
+	}
+	perPkg := map[string]map[string][]use{} // pkg → sentinel → uses
+	for _, fn := range p.ModuleFuncs() {
+		pk := fnPkg(fn)
+		if pk == nil || fn.Blocks == nil || !want[shortPkg(pk.Path())] {
+			continue
+		}
+		perFn := map[string][]use{}
+		for _, b := range liveBlocks(fn) {
+			cnd, _, _, _, _, ok := effCond(b)
+			if !ok {
+				continue
+			}
+			var g, form string
+			var tested ssa.Value
+			switch c := cnd.(type) {
+			case *ssa.Call:
+				if CalleeKey(c) == "errors.Is" && len(c.Call.Args) == 2 {
+					g, form, tested = globalLoad(c.Call.Args[1]), "errors.Is", c.Call.Args[0]
+				}
+			case *ssa.BinOp:
+				if (c.Op == token.EQL || c.Op == token.NEQ) && isErrorType(c.X.Type()) {
+					if g = globalLoad(c.Y); g != "" {
+						tested = c.X
+					} else {
+						g, tested = globalLoad(c.X), c.Y
+					}
+					form = "=="
+				}
+			}
+			if g == "" {
+				continue
+			}
+			root := stripIface(tested)
+			if ld, isLd := root.(*ssa.UnOp); isLd && ld.Op == token.MUL && isCell(ld.X) {
+				root = rootCell(ld.X)
+			}
+			u := use{form, cnd.Pos(), root}
+			perFn[g] = append(perFn[g], u)
+			pkName := shortPkg(pk.Path())
+			if perPkg[pkName] == nil {
+				perPkg[pkName] = map[string][]use{}
+			}
+			perPkg[pkName][g] = append(perPkg[pkName][g], u)
+		}
+		for g, us := range perFn {
+			key := fmt.Sprintf("%s/%s/%s", rule, FuncKey(fn), g)
+			mixed := false
+			first := map[ssa.Value]use{}
+			for _, u := range us {
+				// module sentinels: one form per function; foreign ones (io.EOF): one form per tested value, since raw
+				// and wrapped sources legitimately differ
+				grp := u.root
+				if moduleSentinel(p, g) {
+					grp = nil
+				}
+				f0, seen := first[grp]
+				if !seen {
+					first[grp] = u
+					continue
+				}
+				if u.form != f0.form {
+					mixed = true
+					r.Bad(rule, key, u.pos, fmt.Sprintf("%s is tested with %s here and with %s elsewhere in the same function on the same error: a wrapped %s passes one test and fails the other", g, u.form, f0.form, g))
+					break
+				}
+			}
+			if !mixed {
+				r.Saw(fn)
+				r.OK(rule, key, us[0].pos, fmt.Sprintf("%d test(s), all %s", len(us), us[0].form))
+			}
+		}
+	}
+	for pkName, m := range perPkg {
+		for g, us := range m {
+			if !strings.HasPrefix(g, pkName+".") && !moduleSentinel(p, g) {
+				continue // foreign sentinel (io.EOF): raw and wrapped sources legitimately differ between functions
+			}
+			key := fmt.Sprintf("%s/pkg:%s/%s", rule, pkName, g)
+			mixed := false
+			for _, u := range us {
+				if u.form != us[0].form {
+					mixed = true
+					r.Bad(rule, key, u.pos, fmt.Sprintf("package %s tests %s with %s here and with %s elsewhere", pkName, g, u.form, us[0].form))
+					break
+				}
+			}
+			if !mixed {
+				r.OK(rule, key, us[0].pos, fmt.Sprintf("%d test(s), all %s", len(us), us[0].form))
+			}
+		}
+	}
+}
+
+// moduleSentinel: g ("pkg.Name") is a package-level error variable declared in the module.
+func moduleSentinel(p *Prog, g string) bool {
+	i := strings.LastIndex(g, ".")
+	if i < 0 {
+		return false
+	}
+	for _, fn := range p.FuncsOfPkg(g[:i]) {
+		if fn.Pkg != nil {
+			if m, ok := fn.Pkg.Members[g[i+1:]]; ok {
+				_, isG := m.(*ssa.Global)
+				return isG
+			}
+		}
+	}
+	return false
+}
+
+// R-open-flag: the "open" flag says that Open succeeded. In every Open method of the module that sets a boolean field
+// named open/opened to true, no failing return is reachable after the store: a handle whose Open returned an error
+// must still answer "not opened yet" and must be openable again once the cause is gone.
+func ruleOpenFlag(r *Report, pkgs ...string) {
+	const rule = "open-flag"
+	r.Rule(rule, 1, "in every Open method that sets its receiver's open flag, no error return is reachable after the flag is set (the flag is set only when Open succeeds)")
+	p := r.P
+	want := map[string]bool{}
+	for _, k := range pkgs {
+		want[k] = true
+	}
+	for _, fn := range p.ModuleFuncs() {
+		pk := fnPkg(fn)
+		if pk == nil || fn.Blocks == nil || fn.Name() != "Open" || fn.Signature.Recv() == nil || fn.Parent() != nil || !want[shortPkg(pk.Path())] {
+			continue
+		}
+		idx := errorResultIndex(fn)
+		if idx < 0 {
+			continue
+		}
+		var sets []Site
+		eachInstr(fn, func(s Site) {
+			st, ok := s.Instr.(*ssa.Store)
+			if !ok {
+				return
+			}
+			_, f, base, ok := fieldAddrName(st.Addr)
+			if !ok || (f != "open" && f != "opened" && f != "isOpen") || len(fn.Params) == 0 || base != ssa.Value(fn.Params[0]) {
+				return
+			}
+			if c, isC := constBool(st.Val); isC && c {
+				sets = append(sets, s)
+			}
+		})
+		if len(sets) == 0 {
+			continue
+		}
+		r.Saw(fn)
+		key := rule + "/" + FuncKey(fn)
+		bad := ""
+		for _, s := range sets {
+			for _, rs := range returnsOf(fn) {
+				ret := rs.Instr.(*ssa.Return)
+				if k, _ := returnErrOperand(ret, idx); k == "nil" {
+					continue
+				}
+				if reachableFromSite(s, rs) {
+					bad = fmt.Sprintf("the error return at %s is reachable after the open flag was set at %s: a failed Open leaves a handle that claims to be open (reads answer from a half-initialised state, a retry reports \"already open\")", p.Pos(rs.Pos()), p.Pos(s.Pos()))
+				}
+			}
+		}
+		if bad != "" {
+			r.Bad(rule, key, sets[0].Pos(), bad)
+		} else {
+			r.OK(rule, key, sets[0].Pos(), "open flag set on the success path only")
+		}
+	}
+}
+
+// R-reader-path: a table reader that the database keeps is opened on the table's published name. The reader remembers
+// its base path (compaction re-opens its inputs through BasePath()); a reader opened on the temporary flush or
+// compaction directory keeps working after the rename (open descriptors and mappings survive) but names a path that no
+// longer exists, so the first compaction that includes the table fails and stops the process.
+func ruleReaderPath(r *Report) {
+	const rule = "reader-path"
+	r.Rule(rule, 2, "every sstables.NewSSTableReader call in simpledb opens a path that is not derived from the temporary flush / compaction locations (SSTableFlushPathPrefix, os.MkdirTemp)")
+	p := r.P
+	flushPrefix := ""
+	if pk := p.All[modPath+"/simpledb"]; pk != nil {
+		if o, ok := pk.Types.Scope().Lookup("SSTableFlushPathPrefix").(*types.Const); ok {
+			flushPrefix = constant.StringVal(o.Val())
+		}
+	}
+	for _, fn := range p.FuncsOfPkg("simpledb") {
+		n := 0
+		for _, s := range CallsIn(fn, Keys("sstables.NewSSTableReader")) {
+			// the ReadBasePath option among the variadic arguments
+			var pathArg ssa.Value
+			eachInstr(fn, func(t Site) {
+				if c, ok := t.Instr.(*ssa.Call); ok && CalleeKey(c) == "sstables.ReadBasePath" && precedes(t, s) && len(c.Call.Args) == 1 {
+					// the nearest preceding one wins
+					pathArg = c.Call.Args[0]
+				}
+			})
+			key := fmt.Sprintf("%s/%s", rule, FuncKey(fn))
+			if n > 0 {
+				key = fmt.Sprintf("%s#%d", key, n+1)
+			}
+			n++
+			r.Saw(fn)
+			if pathArg == nil {
+				r.Unk(rule, key, s.Pos(), "no ReadBasePath option found for this reader")
+				continue
+			}
+			temp := valueDependsOn(pathArg, func(v ssa.Value) bool {
+				switch x := v.(type) {
+				case *ssa.Const:
+					if x.Value != nil && x.Value.Kind() == constant.String && flushPrefix != "" && strings.HasPrefix(constant.StringVal(x.Value), flushPrefix) {
+						return true
+					}
+				case *ssa.Call:
+					if CalleeKey(x) == "os.MkdirTemp" {
+						return true
+					}
+				}
+				return false
+			})
+			if temp {
+				r.Bad(rule, key, s.Pos(), "the reader is opened on a temporary directory (flush / compaction staging): after the rename its BasePath() names a directory that no longer exists, and the next compaction that re-opens the table through it fails with \"no such file or directory\" and stops the process")
+			} else {
+				r.OK(rule, key, s.Pos(), "opened on a published table path")
+			}
+		}
+	}
+}
+
+// R-walk-complete: recovery enumerates directories with filepath.Walk; a callback that returns filepath.SkipAll ends
+// the enumeration at that entry, and everything that sorts after it (tables, WAL files) is never seen. SkipDir (skip
+// this directory's content) is fine.
+func ruleWalkComplete(r *Report) {
+	const rule = "walk-complete"
+	r.Rule(rule, 3, "no filepath.Walk / WalkDir callback in simpledb or wal returns filepath.SkipAll: every entry of the database and WAL directories is visited by recovery")
+	p := r.P
+	for _, pkg := range []string{"simpledb", "wal"} {
+		for _, fn := range p.FuncsOfPkg(pkg) {
+			for _, s := range CallsIn(fn, Keys("path/filepath.Walk", "path/filepath.WalkDir")) {
+				args := s.Call().Common().Args
+				if len(args) < 2 {
+					continue
+				}
+				var cb *ssa.Function
+				cbv := args[1]
+				for {
+					if ct, ok := cbv.(*ssa.ChangeType); ok {
+						cbv = ct.X
+						continue
+					}
+					break
+				}
+				switch x := cbv.(type) {
+				case *ssa.MakeClosure:
+					cb, _ = x.Fn.(*ssa.Function)
+				case *ssa.Function:
+					cb = x
+				}
+				key := fmt.Sprintf("%s/%s", rule, FuncKey(fn))
+				key = uniqKey(r, key)
+				if cb == nil {
+					r.Unk(rule, key, s.Pos(), "walk callback is not a function literal")
+					continue
+				}
+				r.Saw(cb)
+				bad := false
+				eachInstr(cb, func(t Site) {
+					if u, ok := t.Instr.(*ssa.UnOp); ok {
+						if g := globalLoad(u); strings.HasSuffix(g, ".SkipAll") {
+							bad = true
+							r.Bad(rule, key, u.Pos(), "the walk callback can return SkipAll: the enumeration ends at this entry and every entry that sorts after it (e.g. all sstable_* directories after a leftover flush_sstable_* directory) is never seen: no table is loaded, the generation restarts at 0 and the next flush collides with an existing table")
+						}
+					}
+				})
+				if !bad {
+					r.OK(rule, key, s.Pos(), "callback never ends the walk early")
+				}
+			}
+		}
+	}
+}
+
+// uniqKey appends #n when the key was already used in this report.
+func uniqKey(r *Report, key string) string {
+	n := 0
+	for _, o := range r.Obls {
+		if o.Key == key || strings.HasPrefix(o.Key, key+"#") {
+			n++
+		}
+	}
+	if n == 0 {
+		return key
+	}
+	return fmt.Sprintf("%s#%d", key, n+1)
 }
